@@ -16,6 +16,7 @@ import re
 import vlib
 
 ASM = os.path.join(vlib.PORT, "cmi_coroutine_context.asm")
+CSRC = os.path.join(vlib.PORT, "cmi_coroutine_context.c")
 ROUTINES = [("cmi_coroutine_context_switch", "switchCode"), ("cmi_coroutine_trampoline", "trampCode")]
 REGS = ["rax", "rcx", "rdx", "rbx", "rsp", "rbp", "rsi", "rdi", "r8", "r9", "r10", "r11", "r12", "r13", "r14", "r15"]
 
@@ -157,6 +158,110 @@ def parse_nasm(expanded):
     return out
 
 
+# ---------------------------------------------------------------------------------------------------------------
+# the stores of cmi_coroutine_context_init (C source) -> `currentStores`
+# ---------------------------------------------------------------------------------------------------------------
+
+def _strip_c_comments(t):
+    t = re.sub(r"/\*.*?\*/", " ", t, flags=re.S)
+    return re.sub(r"//[^\n]*", " ", t)
+
+
+def _c_value(e, ctx):
+    """RHS of a store -> (Lean term of type W, python description)"""
+    e = e.strip()
+    while True:
+        e2 = re.sub(r"^\(\s*(?:uintptr_t|uint64_t|uint32_t|void\s*\*)\s*\)\s*", "", e).strip()
+        if e2.startswith("(") and e2.endswith(")") and e2.count("(") == e2.count(")") and _balanced(e2[1:-1]):
+            e2 = e2[1:-1].strip()
+        if e2 == e:
+            break
+        e = e2
+    names = {"cmi_coroutine_trampoline": "tramp", "cp->cr_function": "fn", "cp": "cp", "cp->context": "ctx",
+             "cmi_coroutine_exit": "exitf", "cp->cr_exit": "exitf"}
+    if e in names:
+        return names[e]
+    m = re.fullmatch(r"cp->stack_base\s*-\s*(\w+)", e)
+    if m:
+        return "(base - %s)" % _w(_c_int(m.group(1), ctx))
+    return _w(_c_int(e, ctx))
+
+
+def _balanced(t):
+    d = 0
+    for ch in t:
+        if ch == "(":
+            d += 1
+        elif ch == ")":
+            d -= 1
+            if d < 0:
+                return False
+    return d == 0
+
+
+def _c_int(tok, ctx):
+    t = re.sub(r"(?i)(ull|ul|u|ll|l)$", "", tok.strip())
+    try:
+        return int(t, 0)
+    except ValueError:
+        raise Untranslatable("cannot read the C expression '%s' (%s)" % (tok, ctx))
+
+
+def parse_context_init(text):
+    """-> (list of Lean CStore terms, bytes below stack_base where stack_pointer ends up, description list)"""
+    text = _strip_c_comments(text)
+    m = re.search(r"void\s+cmi_coroutine_context_init\s*\([^)]*\)\s*\{", text)
+    if not m:
+        raise Untranslatable("cmi_coroutine_context_init not found")
+    body = text[m.end():]
+    a = re.search(r"unsigned\s+char\s*\*\s*stkptr\s*=\s*cp->stack_base\s*;", body)
+    b = re.search(r"cp->stack_pointer\s*=\s*stkptr\s*;", body)
+    if not a or not b or b.start() < a.end():
+        raise Untranslatable("cannot find the frame-writing part of cmi_coroutine_context_init (stkptr = stack_base ... stack_pointer = stkptr)")
+    part = body[a.end():b.start()]
+    # the one conditional: which exit function goes into the r15 slot; both arms must store to the same place
+    def cond(mm):
+        x, y = mm.group(1).strip(), mm.group(2).strip()
+        px = re.fullmatch(r"(\*\s*\([^)]*\)\s*\(?[^=]*?\)?)\s*=\s*\(uintptr_t\)\s*cmi_coroutine_exit\s*;", x)
+        py = re.fullmatch(r"(\*\s*\([^)]*\)\s*\(?[^=]*?\)?)\s*=\s*\(uintptr_t\)\s*\(?\s*cp->cr_exit\s*\)?\s*;", y)
+        if not px or not py or re.sub(r"\s", "", px.group(1)) != re.sub(r"\s", "", py.group(1)):
+            raise Untranslatable("the cr_exit conditional of cmi_coroutine_context_init has an unexpected shape")
+        return px.group(1) + " = (uintptr_t)cmi_coroutine_exit;"
+    part = re.sub(r"if\s*\(\s*cp->cr_exit\s*==\s*NULL\s*\)\s*\{([^{}]*)\}\s*else\s*\{([^{}]*)\}", cond, part)
+    if re.search(r"\b(if|while|for|switch|goto)\b", part):
+        raise Untranslatable("control flow in the frame-writing part of cmi_coroutine_context_init")
+    below, stores, desc = 0, [], []
+    for st in part.split(";"):
+        st = " ".join(st.split())
+        if not st or st.startswith("cmb_assert_debug"):
+            continue
+        m = re.fullmatch(r"stkptr -= (\w+)", st)
+        if m:
+            below += _c_int(m.group(1), st)
+            continue
+        m = re.fullmatch(r"stkptr \+= (\w+)", st)
+        if m:
+            below -= _c_int(m.group(1), st)
+            continue
+        m = re.fullmatch(r"\* ?\( ?(uint64_t|uint32_t) ?\* ?\) ?(?:stkptr|\( ?stkptr ?([+-]) ?(\w+) ?\)) ?= ?(.+)", st)
+        if not m:
+            raise Untranslatable("statement '%s' of cmi_coroutine_context_init is outside the modelled subset" % st)
+        ty, sign, off, rhs = m.groups()
+        k = _c_int(off, st) if off else 0
+        d = below - k if sign != "-" else below + k
+        v = _c_value(rhs, st)
+        if d <= 0 or d % 4 != 0:
+            raise Untranslatable("store at %d bytes below stack_base is not 4-aligned / not below it (%s)" % (d, st))
+        if ty == "uint64_t":
+            stores.append(".u64 %d %s" % (d, v))
+        else:
+            if v in ("tramp", "fn", "cp", "ctx", "exitf") or v.startswith("(base"):
+                raise Untranslatable("32-bit store of an address (%s)" % st)
+            stores.append(".u32 %d %s" % (d, v.replace("#64", "#32")))
+        desc.append("%s@-%d=%s" % (ty, d, v))
+    return stores, below, desc
+
+
 def generate(impl):
     """Returns (lean_text, info).  Raises Untranslatable."""
     obj = os.path.join(impl["dir"], "cmi_coroutine_context_asm.o")
@@ -172,7 +277,7 @@ def generate(impl):
     src_r = parse_nasm(exp)
     out = ["/- GENERATED by tools/gen_ctxasm.py from the object code assembled out of /repo's current",
            "   src/port/x86-64/linux/cmi_coroutine_context.asm on every run. Do not edit. -/",
-           "import CimbaModel.Ctx.X86", "", "namespace CimbaModel.Generated", "open CimbaModel.Ctx", ""]
+           "import CimbaModel.Ctx.X86", "import CimbaModel.Ctx.Frame", "", "namespace CimbaModel.Generated", "open CimbaModel.Ctx", ""]
     info = {"object_sha256": hashlib.sha256(open(obj, "rb").read()).hexdigest()[:16], "routines": {}}
     for sym, lname in ROUTINES:
         if sym not in obj_r:
@@ -193,6 +298,20 @@ def generate(impl):
         out.append("")
         info["routines"][sym] = {"instructions": len(ins), "bytes": sum(n for _, n, _, _ in ins),
                                  "mnemonics": " ; ".join(txt for _, _, _, txt in ins)}
+    # the stores of cmi_coroutine_context_init
+    csrc = open(os.path.join(vlib.REPO, CSRC)).read()
+    stores, below, desc = parse_context_init(csrc)
+    out.append("/-- the stores of cmi_coroutine_context_init (src/port/x86-64/linux/cmi_coroutine_context.c), in program")
+    out.append("    order, each at its distance below the aligned stack_base -/")
+    out.append("def currentStores (tramp fn cp ctx exitf base : W) : List CStore := [")
+    out.append(",\n".join("  " + t for t in stores))
+    out.append("]")
+    out.append("")
+    out.append("/-- cp->stack_pointer ends up this many bytes below stack_base -/")
+    out.append("def currentSpBelow : Nat := %d" % below)
+    out.append("")
+    info["context_init"] = {"stores": desc, "sp_below": below,
+                            "source_sha256": hashlib.sha256(csrc.encode()).hexdigest()[:16]}
     out.append("end CimbaModel.Generated")
     return "\n".join(out) + "\n", info
 
